@@ -507,9 +507,16 @@ void World::CheckCycles(const InvRecord& r, const std::set<std::string>& dd_at_s
       if (level == 1 || certain) v.insert(v.end(), e->imp_ins.begin(), e->imp_ins.end());
     }
     if (level == 1) {
-      v.insert(v.end(), s.hidden.begin(), s.hidden.end());
+      // what a command reports is the files it read: an alias among its hidden
+      // includes shows up as the files behind it
+      std::function<void(const std::string&, int)> add = [&](const std::string& p, int depth) {
+        v.push_back(p);
+        int pr = sc.Producer(p);
+        if (pr >= 0 && sc.stmts[pr].phony && depth < 20) { for (auto& q : sc.stmts[pr].ins) add(q, depth + 1); for (auto& q : sc.stmts[pr].imp_ins) add(q, depth + 1); }
+      };
+      for (auto& p : s.hidden) add(p, 0);
       auto rh = reported_hidden.find(id);
-      if (rh != reported_hidden.end()) v.insert(v.end(), rh->second.begin(), rh->second.end());
+      if (rh != reported_hidden.end()) for (auto& p : rh->second) add(p, 0);
     }
     return v;
   };
